@@ -49,6 +49,8 @@ EXTRA_SNIPPETS = {
     "shortB_named": ("Gammaxo, 1 U.S. at 301.", "ShortCaseCitation", 0),
     "shortA_var": ("Betaxo, 1 U. S. at 104.", "ShortCaseCitation", 0),       # variation spelling, defendant name
     "fullRoman": ("Iotaxo v. Kappaxo, 3 U.S. xii (1801)", "FullCaseCitation", 0),
+    "fullRoman2": ("Iotaxo v. Kappaxo, 3 U.S. iv (1801)", "FullCaseCitation", 0),       # other roman page, same volume
+    "shortXname": ("Epsilonxo, 1 U.S. at 105.", "ShortCaseCitation", 0),               # A/B's volume, C's party name
     "fullNoName": ("1 U.S. 100", "FullCaseCitation", 0),                       # equal to A without parties
     "refUnknown": ("Omegaxo v. Sigmaxo, 8 F.3d 8 (1993). In Omegaxo at 9 we", "ReferenceCitation", 0),
 }
@@ -81,6 +83,32 @@ def dynamic_id_kinds(protos, max_pages):
 
 def instantiate(protos, combo):
     return [copy.copy(protos[k]) for k in combo]   # distinct objects per use
+
+
+# focus alphabets: longer exhaustive enumeration over the kinds that interact in one mechanism
+FOCUS = {
+    "short": ["fullA", "fullB", "fullC", "fullC3", "fullNoName", "shortA_named", "shortAmb", "shortXname",
+              "shortC3", "supraA"],
+    "id": ["fullA", "fullPh", "fullRoman", "fullRoman2", "journalPh", "law", "shortForeign", "idValid",
+           "idInvalid", "idNoPin", "idWinMax1", "unknown"],
+}
+FOCUS_LMAX = {3: 4, 5: 5}     # base bound -> focus bound
+
+
+def focus_sequences(base_lmax, shard, nshards):
+    lmax = FOCUS_LMAX.get(base_lmax, 4)
+    n = 0
+    for name, kinds in FOCUS.items():
+        for length in range(2, lmax + 1):
+            for combo in itertools.product(kinds, repeat=length):
+                if n % nshards == shard:
+                    yield combo
+                n += 1
+
+
+def n_focus_sequences(base_lmax):
+    lmax = FOCUS_LMAX.get(base_lmax, 4)
+    return sum(len(k) ** i for k in FOCUS.values() for i in range(2, lmax + 1))
 
 
 def sequences(length_max, shard, nshards, kinds=KINDS):
